@@ -168,9 +168,19 @@ package wire
 //@   each [C05] q :: len(ec.errors) == 0 ==> TMD[srcMap][q] && isImpSrc(TMV[srcMap][q].(*providerSetSrc), src.Import)
 //@   props C05
 
+// C11: a binding is accepted only next to a source of its concrete type, and the interface key then
+// holds the very entry of the concrete type (same *ProvidedType: one instance, no second construction).
+//@ define boundTo(pm *typeutil.Map, bs []*IfaceBinding, n int) = forall q :: 0 <= q && q < n ==> TMD[pm][tid(bs[q].Provided)] && TMD[pm][tid(bs[q].Iface)] && TMV[pm][tid(bs[q].Iface)] == TMV[pm][tid(bs[q].Provided)]
+// processBind accepts exactly the (interface, concrete) pairs of the statement.
+//@ func processBind
+//@   ensures result.1 == nil ==> result.0 != nil
+//@   ensures [C11] result.1 == nil ==> result.0 != nil && result.0.Iface != nil && result.0.Provided != nil && (result.0.Iface.Underlying() is *types.Interface)
+//@   ensures [C11] result.1 == nil ==> types.Implements(result.0.Provided, result.0.Iface.Underlying().(*types.Interface))
+//@   ensures [C11] result.1 == nil ==> tid(result.0.Iface) != tid(result.0.Provided)
 //@ func buildProviderMap
 //@   requires forall i :: 0 <= i && i < len(set.Imports) ==> set.Imports[i].providerMap != nil && set.Imports[i].srcMap != nil
 //@   ensures [C05] len(result.2) > 0 ==> result.0 == nil && result.1 == nil
+//@   ensures [C11] len(result.2) == 0 ==> boundTo(result.0, set.Bindings, len(set.Bindings))
 //@   ensures [C05] len(result.2) == 0 ==> mapsOK(result.0, result.1)
 //@   ensures [C02] len(result.2) == 0 ==> provArgsAll(result.0, set)
 //@   ensures [C05] len(result.2) == 0 ==> ownsAllArgs(result.1, set) && ownsImps(result.1, set.Imports, len(set.Imports)) && ownsProvs(result.1, set.Providers, len(set.Providers)) && ownsVals(result.1, set.Values, len(set.Values)) && ownsFields(result.1, set.Fields, len(set.Fields)) && ownsBinds(result.1, set.Bindings, len(set.Bindings))
@@ -199,6 +209,7 @@ package wire
 //@   loop 7 invariant [C02] len(ec.errors) == 0 ==> provArgsAll(providerMap, set) && wfSrc(src) && isFieldSrc(src, f)
 //@   loop 7 invariant [C05] len(ec.errors) == 0 ==> ownsAllArgs(srcMap, set) && ownsImps(srcMap, set.Imports, len(set.Imports)) && ownsProvs(srcMap, set.Providers, len(set.Providers)) && ownsVals(srcMap, set.Values, len(set.Values)) && ownsFields(srcMap, set.Fields, done6) && ownsFOuts(srcMap, f, done)
 //@   loop 8 invariant mapsOK(providerMap, srcMap) && ec != nil
+//@   loop 8 invariant [C11] len(ec.errors) == 0 ==> boundTo(providerMap, set.Bindings, done)
 //@   loop 8 invariant [C02] len(ec.errors) == 0 ==> provArgsAll(providerMap, set)
 //@   loop 8 invariant [C05] len(ec.errors) == 0 ==> ownsAllArgs(srcMap, set) && ownsImps(srcMap, set.Imports, len(set.Imports)) && ownsProvs(srcMap, set.Providers, len(set.Providers)) && ownsVals(srcMap, set.Values, len(set.Values)) && ownsFields(srcMap, set.Fields, len(set.Fields)) && ownsBinds(srcMap, set.Bindings, done)
 
@@ -470,8 +481,6 @@ package wire
 //@ func newObjectCache
 //@   requires len(pkgs) > 0
 //@   ensures result != nil
-//@ func processBind
-//@   ensures result.1 == nil ==> result.0 != nil
 //@ func processValue
 //@   ensures result.1 == nil ==> result.0 != nil
 //@ func processInterfaceValue
